@@ -47,6 +47,8 @@ pub assume_specification [core::time::Duration::subsec_nanos] (d: &core::time::D
               'overflowing_sub_signed', 'signed_duration_since',
               'overflowing_add_offset', 'overflowing_sub_offset']:
         u.prove(F, n, IMPL, cid='NaiveTime::' + n)
+    for n in ['from_hms', 'from_hms_milli', 'from_hms_micro', 'from_hms_nano', 'from_num_seconds_from_midnight']:
+        u.prove(F, n, IMPL, cid='NaiveTime::' + n)
     u.prove(F, 'overflowing_add_signed', IMPL, cid='NaiveTime::overflowing_add_signed',
             hints=[("let secs_in_day = secs.rem_euclid(86_400);", "        proof { pos_mod_day(secs as int, frac as int); }")])
     for n in ['hour', 'minute', 'second', 'nanosecond', 'with_hour', 'with_minute', 'with_second', 'with_nanosecond',
